@@ -146,3 +146,58 @@ func vh_C03_grammar() {
 	vDiff(env, forms, "grammar")
 	vReach("grammar")
 }
+
+// vh_C03_blocks: statement order inside a block.  A block scope (newScope,
+// let with and without bindings, a for body, a function body) holds, in every
+// order, a closure definition, a later or earlier def of a name the closure
+// uses freely, a set of that name and a second closure; the closures are
+// called inside the block and after it (returned in a list).  Closures
+// capture the scopes themselves, so a binding added to a captured scope
+// afterwards - also to one that was still empty when the closure was made -
+// is what the closure sees.
+func vh_C03_blocks() {
+	vFormatOpaque(true)
+	env := vEvalEnv(0)
+	e := env
+	s := func(n string) Sexp { return vS(e, n) }
+	g := &vC03Gen{env: env}
+	name := g.name()
+	use := vL(s("+"), name, g.expr(0)) // the closure's body mentions the name freely
+	stmts := []Sexp{
+		vL(s("def"), s("get"), vL(s("fn"), vA(e), use)),
+		vL(s("def"), name, g.expr(0)),
+		vL(s("def"), s("put"), vL(s("fn"), vA(e, s("v")), vL(s("set"), name, s("v")))),
+	}
+	// every order of the three statements
+	perm := [][3]int{{0, 1, 2}, {0, 2, 1}, {1, 0, 2}, {1, 2, 0}, {2, 0, 1}, {2, 1, 0}}[vChoice("order", 6)]
+	seq := []Sexp{stmts[perm[0]], stmts[perm[1]], stmts[perm[2]]}
+	tail := []Sexp{vL(s("t"), vL(s("get"))), vL(s("put"), vSmallInt("pv")), vL(s("t"), vL(s("get"))), vL(s("list"), s("get"), s("put"))}
+	body := append(append([]Sexp{}, seq...), tail...)
+	var block Sexp
+	switch vChoice("block", 5) {
+	case 0:
+		block = vL(append([]Sexp{s("newScope")}, body...)...)
+	case 1:
+		block = vL(append([]Sexp{s("let"), vA(e)}, body...)...)
+	case 2:
+		block = vL(append([]Sexp{s("let"), vA(e, s("z"), vI(1))}, body...)...)
+	case 3:
+		block = vL(append([]Sexp{s("letseq"), vA(e)}, body...)...)
+	default:
+		block = vL(append([]Sexp{s("begin")}, body...)...) // directly in the function scope
+	}
+	forms := []Sexp{
+		vL(s("def"), s("x"), vSmallInt("gx")),
+		vL(s("def"), s("y"), vSmallInt("gy")),
+		vL(s("defn"), s("f"), vA(e, s("x")), block),
+		// called from a scope that shadows both names; the pair of closures
+		// is used again after the creator returned
+		vL(s("def"), s("p"), vL(s("let"), vA(e, s("x"), vSmallInt("cx"), s("y"), vSmallInt("cy")), vL(s("f"), vSmallInt("arg")))),
+		vL(s("t"), vL(vL(s("first"), s("p")))),
+		vL(vL(s("first"), vL(s("rest"), s("p"))), vSmallInt("pv2")),
+		vL(s("t"), vL(vL(s("first"), s("p")))),
+		vL(s("t"), s("x")), vL(s("t"), s("y")),
+	}
+	vDiff(env, forms, "blocks")
+	vReach("blocks")
+}
